@@ -386,10 +386,15 @@ Proof. vm_compute. reflexivity. Qed.
 (* 40 bytes of P_SM3 (two HMAC blocks, the second truncated), and two records MACed with one object,
    the first with extra bytes *)
 Example C04_gmtls_example :
-  prf12_sm3_ops 40 40 [1; 2; 3] [0x6b] [9; 9] = Ok (PRF_spec hmac_sm3 40 [1; 2; 3] [0x6b] [9; 9]) /\
+  (* the value was computed by the independent Python HMAC-SM3 of checks/c04.py *)
+  prf12_sm3_ops 40 40 [1; 2; 3] [0x6b] [9; 9] =
+  Ok [0x69; 0x1b; 0xa9; 0xfa; 0x0e; 0xb7; 0x54; 0x26; 0x25; 0x11; 0x0c; 0x44; 0x56; 0x90; 0x21; 0xf5; 0xc2; 0xd4; 0x24; 0x31; 0x8c; 0x52; 0x2f; 0x69; 0xe5; 0x0d; 0x6d; 0xe2; 0xa9; 0xbb; 0xe4; 0x26; 0x83; 0x27; 0x81; 0xc5; 0xb8; 0xb4; 0xf5; 0x39] /\
   exists h, macSM3 [7; 7] = Ok h /\
     tls10MAC_run h [([0; 0; 0; 0; 0; 0; 0; 1], [23; 1; 1; 0; 2], [0x61; 0x62], Some [5; 5; 5]);
                     ([0; 0; 0; 0; 0; 0; 0; 2], [23; 1; 1; 0; 1], [0x63], None)] =
     [Ok (hmac_sm3 [7; 7] [0; 0; 0; 0; 0; 0; 0; 1; 23; 1; 1; 0; 2; 0x61; 0x62]);
      Ok (hmac_sm3 [7; 7] [0; 0; 0; 0; 0; 0; 0; 2; 23; 1; 1; 0; 1; 0x63])].
-Proof. split; [vm_compute; reflexivity|eexists; split; vm_compute; reflexivity]. Qed.
+Proof.
+  split; [vm_compute; reflexivity|].
+  eexists. split; [vm_compute; reflexivity|]. vm_compute. reflexivity.
+Qed.
